@@ -105,8 +105,8 @@ class Check:
         with open(os.path.join(VERIF, "evidence", self.prop + ".json"), "w") as f:
             json.dump(ev, f, indent=1)
         for it in self.findings.items:
-            if it.get("property") == self.prop and it["id"] in self.known_hits:
-                print("KNOWN-FINDING: property=%s %s (%d occurrences this run)" % (self.prop, it["what"], self.known_hits[it["id"]]))
+            if it.get("property") == self.prop:
+                print("KNOWN-FINDING: property=%s %s (%d occurrences this run)" % (self.prop, it["what"], self.known_hits.get(it["id"], 0)))
         if self.violations:
             seen = set()
             for v in self.violations:
